@@ -802,6 +802,56 @@ impl Drop for TcpStream {
     }
 }
 
+/// `tokio::net::lookup_host` against the simulated resolver
+pub async fn lookup_host<A: ToSimAddr>(addr: A) -> io::Result<std::vec::IntoIter<SocketAddr>> {
+    match addr.to_sim_addr() {
+        AddrSpec::Sock(a) => Ok(vec![a].into_iter()),
+        AddrSpec::Name(name, port) => match with(|w| w.net.dns.get(&name).copied()) {
+            Some(Some(ip)) => Ok(vec![SocketAddr::new(ip, port)].into_iter()),
+            _ => Err(io::Error::new(io::ErrorKind::Other, "failed to lookup address information")),
+        },
+    }
+}
+
+pub mod tcp {
+    //! owned halves of a stream (`TcpStream::into_split`)
+    use super::*;
+    use std::sync::Arc;
+
+    #[derive(Debug)]
+    pub struct OwnedReadHalf(pub(super) Arc<TcpStream>);
+    #[derive(Debug)]
+    pub struct OwnedWriteHalf(pub(super) Arc<TcpStream>);
+
+    impl AsyncRead for OwnedReadHalf {
+        fn poll_read(self: Pin<&mut Self>, cx: &mut Context<'_>, buf: &mut ReadBuf<'_>) -> Poll<io::Result<()>> {
+            let mut sh = self.0.shadow();
+            Pin::new(&mut *sh).poll_read(cx, buf)
+        }
+    }
+    impl AsyncWrite for OwnedWriteHalf {
+        fn poll_write(self: Pin<&mut Self>, cx: &mut Context<'_>, data: &[u8]) -> Poll<io::Result<usize>> {
+            let mut sh = self.0.shadow();
+            Pin::new(&mut *sh).poll_write(cx, data)
+        }
+        fn poll_flush(self: Pin<&mut Self>, cx: &mut Context<'_>) -> Poll<io::Result<()>> {
+            let mut sh = self.0.shadow();
+            Pin::new(&mut *sh).poll_flush(cx)
+        }
+        fn poll_shutdown(self: Pin<&mut Self>, cx: &mut Context<'_>) -> Poll<io::Result<()>> {
+            let mut sh = self.0.shadow();
+            Pin::new(&mut *sh).poll_shutdown(cx)
+        }
+    }
+}
+
+impl TcpStream {
+    pub fn into_split(self) -> (tcp::OwnedReadHalf, tcp::OwnedWriteHalf) {
+        let a = std::sync::Arc::new(self);
+        (tcp::OwnedReadHalf(a.clone()), tcp::OwnedWriteHalf(a))
+    }
+}
+
 impl AsyncRead for TcpStream {
     fn poll_read(
         self: Pin<&mut Self>,
